@@ -87,6 +87,9 @@ pub struct ScenarioReport {
     pub steps: usize,
     pub choice_points: usize,
     pub max_points: usize,
+    /// most scheduling steps taken by an execution that terminated
+    #[serde(default)]
+    pub max_steps_done: usize,
     pub obs: Vec<u64>,
     pub obs_truncated: bool,
     pub capped: bool,
@@ -170,14 +173,30 @@ impl Acc {
             }
         }
         let machinery = match &r.status {
-            Status::StepCap => Some("step cap hit (possible livelock) - inconclusive".to_string()),
             Status::Divergence(d) => Some(d.clone()),
             Status::Engine(e) => Some(format!("engine failure: {e}")),
             _ => None,
         };
-        if let Status::Livelock(t) = &r.status {
-            // a spinning task is a verdict for every job-level property: the job never ends
-            if !self.rep.violations.iter().any(|v| v.sig == "livelock") {
+        // a spinning task is a verdict for every job-level property: the job never ends. So is a
+        // job over a handful of elements that is still busy after the step cap (200 000
+        // scheduling points; terminating executions of these jobs need a few thousand at most):
+        // its tasks keep exchanging messages or re-arming timers without ever finishing.
+        let never_ends = match &r.status {
+            Status::Livelock(t) => Some(("livelock", t.clone())),
+            Status::StepCap => Some((
+                "nontermination",
+                format!(
+                    "still running after {} scheduling steps (the longest terminating execution of this scenario so far took {})",
+                    r.steps, self.rep.max_steps_done
+                ),
+            )),
+            _ => None,
+        };
+        if r.status == Status::Done {
+            self.rep.max_steps_done = self.rep.max_steps_done.max(r.steps);
+        }
+        if let Some((nsig, t)) = &never_ends {
+            if !self.rep.violations.iter().any(|v| v.sig == *nsig) {
                 self.rep.violations.push(Violation {
                     scenario: s.name.clone(),
                     order: order_name(order).to_string(),
@@ -190,10 +209,13 @@ impl Acc {
                         }
                         t
                     },
-                    sig: "livelock".to_string(),
+                    sig: nsig.to_string(),
                     message: format!("{}: the job never terminates - {t}", s.descr),
                 });
             }
+            // every such execution runs up to the step cap: one verdict per scenario is enough
+            self.rep.capped = true;
+            self.stop = true;
             return vec![];
         }
         if let Some(m) = machinery {
